@@ -165,6 +165,7 @@ pub fn for_each_value(cfg: &Cfg, tag: &str, f: &ValueCheck<'_>) -> Stats {
     let n = cfg.pick(200_000, 4_000_000);
     d.strategy("parsed: G2 well-formed locales (proptest)", &gen::s_ast(), cfg.seed, &format!("{tag}-g2"), n, |a| a.render());
     d.strategy("parsed: G2 long locales (many variants, keywords, private tags; proptest)", &gen::s_locale_long_bytes(), cfg.seed, &format!("{tag}-g2long"), n / 10, |b| b.clone());
+    d.strategy("parsed: G2 huge locales (20-150 attributes / keywords / tfields / private tags; proptest)", &gen::s_locale_huge_bytes(), cfg.seed, &format!("{tag}-g2huge"), n / 64, |b| b.clone());
     d.after_neighbours("parsed: G2 locales, each value checked right after the value of every one-character neighbour (hidden state; proptest)", &gen::s_ast(), cfg.seed, &format!("{tag}-nb"), n / 8, |a| a.render());
     let c = gen::corpus(&cfg.repo);
     let mut all: Vec<Vec<u8>> = vec![];
